@@ -17,7 +17,7 @@ class SimAbort(BaseException):
 
 
 class _T(object):
-  __slots__ = ('name', 'ev', 'alive', 'block', 'wake', 'thread', 'blocked_on')
+  __slots__ = ('name', 'ev', 'alive', 'block', 'wake', 'thread', 'blocked_on', 'timed')
 
   def __init__(self, name):
     self.name = name
@@ -27,6 +27,7 @@ class _T(object):
     self.wake = None
     self.thread = None
     self.blocked_on = None
+    self.timed = False
 
 
 class Sched(object):
@@ -46,6 +47,7 @@ class Sched(object):
     self.p_lock = None        # pre-emption probability at lock release
     self.file_p = {}          # file-id -> pre-emption probability override
     self.hot = {}             # (file-id, line) -> pre-emption probability override
+    self.stall = None         # seconds a thread may be descheduled for right after taking a lock
     self.p_unlocked = {}      # file-id -> probability at lines run while holding no SimLock
     self.locks = []           # SimLocks created through the threading shim
     self.opcode_fids = set()  # file-ids traced at bytecode granularity
@@ -184,7 +186,21 @@ class Sched(object):
     out = []
     for n in sorted(self.th):
       t = self.th[n]
-      if not t.alive or t.wake is not None:
+      if not t.alive:
+        continue
+      if t.timed:
+        # waiting for a condition with a deadline (lock acquisition with a timeout)
+        if t.block is not None and t.block():
+          t.block = t.blocked_on = t.wake = None
+          t.timed = False
+        elif t.wake is None:
+          t.block = t.blocked_on = None      # the deadline passed: timed out
+          t.timed = False
+        else:
+          continue
+        out.append(n)
+        continue
+      if t.wake is not None:
         continue
       if t.block is not None:
         if t.block():
@@ -251,6 +267,15 @@ class Sched(object):
     self.th[me].blocked_on = what
     self._reschedule(me)
 
+  def timed_block(self, pred, deadline, what=None):
+    """Block until pred() holds or the virtual clock reaches `deadline`."""
+    me = self.cur
+    if pred():
+      return
+    t = self.th[me]
+    t.block, t.blocked_on, t.wake, t.timed = pred, what, max(deadline, self.now), True
+    self._reschedule(me)
+
   def wake(self, name):
     """Cut a thread's sleep short (reactor wakeUp from callFromThread)."""
     t = self.th.get(name)
@@ -284,11 +309,22 @@ class SimLock(object):
       if not blocking:
         return False
       s.ctx.probe('lock_contended')
-      s.block_until(lambda: self.owner is None, 'lock:' + self.name)
+      if timeout is not None and timeout >= 0:
+        s.timed_block(lambda: self.owner is None, s.now + timeout, 'lock:' + self.name)
+        if self.owner is not None:
+          s.ctx.probe('lock_acquire_timed_out')
+          return False
+      else:
+        s.block_until(lambda: self.owner is None, 'lock:' + self.name)
     self.owner = s.cur
     self.nacq += 1
     if self.on_acquire:
       self.on_acquire(s.cur, sys._getframe(2))
+    if s.stall and len(s.th) > 1 and s.ctx.ch.pick('stall', 6) == 5:
+      # the thread is descheduled right after taking the lock (a stalled node): the
+      # clock moves on while it holds it
+      s.ctx.fault('thread_stalled_holding_lock')
+      s.sleep(s.stall)
     return True
 
   def release(self):
